@@ -84,12 +84,23 @@ def adp_factory(chk, P):
                                       W.nsym("cutoff_rho"), W.nsym("nrho")], "list")
 
     class Builder(object):
-        def __init__(self, tuples, section):
-            self.tuples = tuples
-            self.section = section
+        """stands for Pair_Potentials_From_Tuples_Builder: its potentials are 'the potentials of section S' only when it
+        was given S's tuples, the form registry and the modifier registry in the slots of those names"""
+        def __init__(self, named):
+            self.named = named
 
         def get_potentials(self, J):
-            return Opaque(("pots-from", self.section))
+            sec = self.named.get("log_section_name")
+            sec = sec.v if isinstance(sec, Const) else repr(sec)
+            tup = self.named.get("potential_tuples")
+            wired = (tup is not None and tup.key() == Opaque(("tuples", sec)).key()
+                     and self.named.get("potential_form_registry") is not None
+                     and self.named["potential_form_registry"].key() == W.param("pfr").key()
+                     and self.named.get("modifier_registry") is not None
+                     and self.named["modifier_registry"].key() == W.param("mr").key())
+            if not wired:
+                return Opaque(("pots-from-miswired-builder", sec, tuple(sorted((k, repr(v)) for k, v in self.named.items()))))
+            return Opaque(("pots-from", sec))
 
     def builder_new(i, fv, a, k, n):
         return NONE
@@ -99,8 +110,10 @@ def adp_factory(chk, P):
 
     def inst(ci, args, kwargs, node):
         if ci is pb:
-            sec = args[3] if len(args) > 3 else kwargs.get("log_section_name")
-            return PyObjV(Builder(args[0], sec.v if isinstance(sec, Const) else repr(sec)))
+            names = pb.lookup("__init__").params()[1:]
+            named = dict(zip(names, args))
+            named.update(kwargs)
+            return PyObjV(Builder(named))
         return orig_inst(ci, args, kwargs, node)
     I.instantiate = inst
 
